@@ -90,6 +90,9 @@ type gen struct {
 	// groupings that are complete but not yet attached to their module
 	pendingGroupings map[Ref]*Grouping
 	topExpanded      map[string]map[Ref]bool
+	// gsize is the number of nodes a grouping expands to (uses unfolded); it
+	// keeps nested uses from multiplying into trees of millions of nodes.
+	gsize map[Ref]int
 }
 
 // Generated bundles a scenario with what the generator knows about it.
@@ -126,7 +129,7 @@ func (g *gen) wantInvalid(kind string) bool {
 
 // Generate draws a scenario.
 func Generate(t *tape.Tape, p Profile) *Generated {
-	g := &gen{t: t, p: p, s: &Scenario{}, subsOf: map[string][]*Mod{}, pendingGroupings: map[Ref]*Grouping{}, topExpanded: map[string]map[Ref]bool{}}
+	g := &gen{t: t, p: p, s: &Scenario{}, subsOf: map[string][]*Mod{}, pendingGroupings: map[Ref]*Grouping{}, topExpanded: map[string]map[Ref]bool{}, gsize: map[Ref]int{}}
 	nm := g.rng(p.Mods)
 	for i := 0; i < nm; i++ {
 		m := &Mod{Name: fmt.Sprintf("m%d", i), Prefix: fmt.Sprintf("p%d", i), NS: fmt.Sprintf("urn:m%d", i)}
@@ -320,10 +323,12 @@ func (g *gen) defs(mi int, m *Mod) {
 			inner.Body = g.body(mi, m, sc, "grouping", g.p.Depth-1, t.Range(1, 2))
 			gr.Groupings = append(gr.Groupings, inner)
 			g.pendingGroupings[Ref{Mod: m.Name, Name: inner.Name}] = inner
+			g.gsize[Ref{Mod: m.Name, Name: inner.Name}] = g.expandedSize(inner.Body)
 			sc.localGroupings = append(sc.localGroupings, Ref{Mod: m.Name, Name: inner.Name})
 		}
 		gr.Body = g.body(mi, m, sc, "grouping", g.p.Depth, t.Range(1, 4))
 		m.Groupings = append(m.Groupings, gr)
+		g.gsize[Ref{Mod: m.Name, Name: gr.Name}] = g.expandedSize(gr.Body)
 	}
 }
 
@@ -511,8 +516,28 @@ func (g *gen) topClosure(ref Ref, into map[Ref]bool) {
 	}
 }
 
+// expandedSize counts the nodes a body expands to.
+func (g *gen) expandedSize(body []*Node) int {
+	n := 0
+	for _, x := range body {
+		if x.Kind == KUses && x.Uses != nil {
+			if sz, ok := g.gsize[*x.Uses]; ok {
+				n += sz
+			} else {
+				n++
+			}
+			continue
+		}
+		n += 1 + g.expandedSize(x.Kids)
+	}
+	return n
+}
+
+const maxExpandedBody = 160
+
 func (g *gen) body(mi int, m *Mod, sc *scope, where string, depth, n int) []*Node {
 	var out []*Node
+	total := 0
 	expanded := map[Ref]bool{}
 	if where == "module" {
 		// a module and its submodules expand into one tree
@@ -526,6 +551,11 @@ func (g *gen) body(mi int, m *Mod, sc *scope, where string, depth, n int) []*Nod
 		if nd == nil {
 			continue
 		}
+		sz := g.expandedSize([]*Node{nd})
+		if total+sz > maxExpandedBody {
+			continue
+		}
+		total += sz
 		if nd.Kind == KUses && nd.Uses != nil {
 			// the same grouping expanded twice into one parent would collide
 			cl := map[Ref]bool{}
@@ -698,6 +728,7 @@ func (g *gen) node(mi int, m *Mod, sc *scope, where string, depth int) *Node {
 			gr.Body = g.body(mi, m, csc, "grouping", depth-2, t.Range(1, 2))
 			n.Groupings = append(n.Groupings, gr)
 			g.pendingGroupings[ref] = gr
+			g.gsize[ref] = g.expandedSize(gr.Body)
 			csc.localGroupings = append(csc.localGroupings, ref)
 		}
 		n.Kids = g.body(mi, m, csc, kind, depth-1, t.Weighted(1, 3, 3, 2, 1))
